@@ -38,6 +38,7 @@ def run_calls(cfg, ids=None, role="single"):
     ids = ids or IdTable()
     xp = get_xp(c["ns"])
     prob = Problem(c["dims"], c["width"], c["center"])
+    prob.recipe = bool(c["recipe"])
     tr = Tracer(prob, ids, fault_k=c["fault_k"], recipe=c["recipe"])
     flow = smcdrv.make_flow(dict(smcdrv.DEFAULT, **{k: c[k] for k in ("dims", "flow_seed", "dtype", "bad_frac")}), prob, xp)
     tr.flow = flow
